@@ -80,7 +80,7 @@ def run(ctx):
         cases = [{"universe": c["universe"], "root": c["root"]}]
     else:
         rng = random.Random(ctx.seed * 15485863 + 11)
-        for _ in range(250 if ctx.tier == "quick" else 6000):
+        for _ in range(3000 if ctx.tier == "quick" else 40000):
             uni, roots = gen_universe(rng, tables)
             for rt in roots:
                 cases.append({"universe": uni, "root": rt})
@@ -88,7 +88,7 @@ def run(ctx):
     obsf = os.path.join(wdir, "obs.ndjson")
     vlib.write_ndjson(casef, cases)
     vlib.run_harness(vh, ["npm", tablesf, casef, obsf], timeout=3000)
-    states, gen, rej, lines = vlib.tlc_chunks("NpmTrace", os.path.join(vlib.SPEC, "NpmTrace.cfg"), wdir, obsf, 400 if ctx.tier == "quick" else 1500,
+    states, gen, rej, lines = vlib.tlc_chunks("NpmTrace", os.path.join(vlib.SPEC, "NpmTrace.cfg"), wdir, obsf, 800 if ctx.tier == "quick" else 2500,
                                               "NpmTrace", parallel=4, workers=4)
     states += r0.distinct
     gen += r0.generated
